@@ -1713,6 +1713,16 @@ func corpus() []*osm.OSM {
 			{ID: 5, Tags: tagsOf("type", "route"), Members: osm.Members{{Type: osm.TypeWay, Ref: 1}, {Type: osm.TypeWay, Ref: 2}, {Type: osm.TypeRelation, Ref: 5, Role: "self"}}},
 			{ID: 6, Tags: tagsOf("type", "multipolygon"), Members: osm.Members{{Type: osm.TypeRelation, Ref: 9, Role: "back"}}}},
 	})
+	// IncludeInvalidPolygons and the holes of valid polygons (Coq: d_hole,
+	// C17_incl_keeps_holes_refuted): valid square, unclosed bigger outer listed after it, a hole
+	// inside both; with the option the unclosed ring claims the hole
+	out = append(out, &osm.OSM{
+		Nodes: nodesAt([3]int{1, 10, 10}, [3]int{2, 20, 10}, [3]int{3, 20, 20}, [3]int{4, 10, 20}, [3]int{5, 5, 5}, [3]int{6, 25, 5},
+			[3]int{7, 25, 25}, [3]int{8, 5, 25}, [3]int{9, 13, 13}, [3]int{10, 16, 13}, [3]int{11, 16, 16}, [3]int{12, 13, 16}),
+		Ways: osm.Ways{wayIDs(1, nil, 1, 2, 3, 4, 1), wayIDs(2, nil, 5, 6, 7, 8), wayIDs(3, nil, 9, 10, 11, 12, 9)},
+		Relations: osm.Relations{{ID: 1, Tags: tagsOf("type", "multipolygon", "natural", "water"), Members: osm.Members{
+			{Type: osm.TypeWay, Ref: 1, Role: "outer"}, {Type: osm.TypeWay, Ref: 2, Role: "outer"}, {Type: osm.TypeWay, Ref: 3, Role: "inner"}}}},
+	})
 	// a route whose only member way has one resolvable node: feature with an empty MultiLineString
 	out = append(out, &osm.OSM{
 		Nodes:     nodesAt([3]int{1, 1, 1}),
@@ -1846,6 +1856,9 @@ func main() {
 		if len(s.runs[8].Features) != len(s.runs[0].Features) {
 			w.Count("incl-invalid-adds-feature")
 		}
+		if inclMovesHole(s.runs[0].Features, s.runs[8].Features) {
+			w.Count("incl-invalid-moves-a-hole-of-a-valid-polygon")
+		}
 	}
 	for _, o := range corpus() {
 		add(o, "corpus")
@@ -1873,6 +1886,57 @@ func main() {
 		fmt.Fprintln(os.Stderr, err)
 		os.Exit(1)
 	}
+}
+
+// inclMovesHole: some polygon of a relation feature without the option has a hole that the
+// polygon with the same outer ring lacks with the option (documented scope, see notes/C17.md)
+func inclMovesHole(base, incl []obsFeature) bool {
+	polys := func(f obsFeature) [][][][2]int64 {
+		switch f.Kind {
+		case 3:
+			return [][][][2]int64{f.Lines}
+		case 5:
+			return f.Polys
+		}
+		return nil
+	}
+	key := func(r [][2]int64) string { return fmt.Sprint(r) }
+	for _, b := range base {
+		for _, i := range incl {
+			if b.Type != i.Type || b.Ref != i.Ref {
+				continue
+			}
+			for _, p := range polys(b) {
+				if len(p) < 2 {
+					continue
+				}
+				kept := false
+				for _, q := range polys(i) {
+					if len(q) == 0 || key(q[0]) != key(p[0]) {
+						continue
+					}
+					have := map[string]int{}
+					for _, h := range q[1:] {
+						have[key(h)]++
+					}
+					ok := true
+					for _, h := range p[1:] {
+						if have[key(h)] == 0 {
+							ok = false
+						}
+						have[key(h)]--
+					}
+					if ok {
+						kept = true
+					}
+				}
+				if !kept {
+					return true
+				}
+			}
+		}
+	}
+	return false
 }
 
 func minInt(a, b int) int {
